@@ -8,6 +8,10 @@ ENGINES = {
     "mhroll": dict(src=["harness/mhroll.c"]),
 }
 
+DEFAULT_LEVEL_TEXT = ("exploration: the property is checked on every execution of a seeded, boundary-biased workload against an independent oracle; "
+                      "held means held on the executions counted in the evidence file, not for all inputs")
+NOT_APPLICABLE = {}
+
 HASH_ALGS = ["sha1", "sha256", "sha512", "md5", "sm3"]
 TRUST = [
     "reference oracles in /verif/ref written from the standards and cross-checked against published vectors at start-up",
